@@ -671,18 +671,30 @@ fn run_case(sink: &mut Sink, csvs: &[String], texts: &[String], exacts: &[String
         }
     }
     let mut eterms = vec![];
+    let mut aterms: Vec<String> = vec![];
     for q in exacts {
         let r = catch(|| {
             let mut ml = MorphemeList::empty(&loaded);
             let n = ml.lookup(q, InfoSubset::empty()).map_err(|e| format!("{:?}", e))?;
             let ids: Vec<u32> = (0..ml.len()).map(|i| ml.get(i).word_id().as_raw()).collect();
+            // the dictionary number as the public accessors report it (not recomputed from the raw word id)
+            let acc: Vec<(i32, bool)> = (0..ml.len()).map(|i| (ml.get(i).dictionary_id(), ml.get(i).is_oov())).collect();
             if n != ids.len() {
                 return Err(format!("lookup returned {} but the list holds {}", n, ids.len()));
             }
-            Ok::<_, String>(ids)
+            Ok::<_, String>((ids, acc))
         });
         match r {
-            Ok(Ok(ids)) => {
+            Ok(Ok((ids, acc))) => {
+                for (w, (did, oov)) in ids.iter().zip(acc.iter()) {
+                    if (*did != (*w >> 28) as i32 || *oov) && bad.is_none() {
+                        bad = Some(format!("exact lookup of {:?}: entry (dictionary {}, word {}) reports Morpheme::dictionary_id() = {}, is_oov() = {}", q, w >> 28, w & 0x0fff_ffff, did, oov));
+                    }
+                    aterms.push(format!("({}, {}, {})", cn(*w), cz(*did as i64), cbool(*oov)));
+                }
+                if ids.iter().any(|w| w >> 28 >= 8) {
+                    sink.tag("exact_lookup_hit_in_dictionary_8_or_later");
+                }
                 let mut s = ids.clone();
                 s.sort();
                 let mut nv: Vec<u32> = vec![];
@@ -726,7 +738,7 @@ fn run_case(sink: &mut Sink, csvs: &[String], texts: &[String], exacts: &[String
         dterms.push(format!("(\"{}\"%string, \"{}\"%string, {})", hexz(&trie), hex(&tbl), rows));
         sink.tag(&format!("trie_units={}", trie.len() / 4 / 256 * 256));
     }
-    let term = format!("check_case_c04L {} {}%nat {} {} {}", clist(dterms), fuel, clist(qterms), clist(eterms), clist(lterms));
+    let term = format!("check_case_c04M {} {}%nat {} {} {} {}", clist(dterms), fuel, clist(qterms), clist(eterms), clist(lterms), clist(aterms));
     // shape tags
     sink.tag(&format!("layers={}", csvs.len()));
     let nrows: usize = all.iter().map(|r| r.len()).sum();
@@ -877,12 +889,12 @@ pub fn run(args: &Args) {
         run_case(&mut sink, &csvs, &texts, &exacts, true, false);
     }
     // hand-made double arrays with wide offsets straight into the reader
-    for _ in 0..args.n(150, 3000) {
+    for _ in 0..args.n(120, 3000) {
         if let Some((units, keys, texts, nwide)) = gen_raw_case(&mut rng) {
             run_raw_case(&mut sink, &units, &keys, &texts, nwide, false);
         }
     }
-    let n = args.n(400, 6000);
+    let n = args.n(320, 6000);
     for _ in 0..n {
         let layers = match rng.below(20) {
             0..=7 => 1,
